@@ -112,6 +112,11 @@ func (e *simEnv) checkEmissions(res drive.Result, f *refmatch.Flow, js []judged,
 			if pp != nil && (pp.Src != p.Src || pp.SrcPort != p.SrcPort || pp.DstPort != p.DstPort || pp.Dst != p.Dst) {
 				viol("flow-changed", fmt.Sprintf("probe %d flow %s:%d->%s:%d differs from previous %s:%d->%s:%d", k, p.Src, p.SrcPort, p.Dst, p.DstPort, pp.Src, pp.SrcPort, pp.Dst, pp.DstPort))
 			}
+			if pp != nil && (pp.FlowLabel != p.FlowLabel || pp.TOS != p.TOS) {
+				// same flow for the whole run: what load-balancing routers hash on besides addresses and ports - the IPv6
+				// flow label, and the traffic class / TOS byte - stays the same from probe to probe
+				viol("flow-changed", fmt.Sprintf("probe %d flow label %#x / traffic class %#x, previous probe %#x / %#x", k, p.FlowLabel, p.TOS, pp.FlowLabel, pp.TOS))
+			}
 			if v.Proto == "icmp" && pp != nil && pp.EchoID != p.EchoID {
 				viol("echo-id-changed", fmt.Sprintf("probe %d echo id %d, previous %d", k, p.EchoID, pp.EchoID))
 			}
